@@ -777,6 +777,9 @@ func init() {
 			emit("accept-var", c20VarReq(v), "ok")
 		}
 		stats["exported-variable-not-physical(skipped)"] = nonPhys
+		// ---- 10. histories of calls on a build.Context (methods and package-level functions): every register it hands out,
+		// before / between / after functions, with every other call in between (see c20ctx.go)
+		c20CtxGenerate(r, *f.n/4, *f.n >= 20000, emit, stats)
 		st := map[string]any{"physical_rows": len(all), "single_conversions": conv, "single_conversions_panicking": convPanics,
 			"random_chain_lengths": chainLens, "requests_by_kind": stats, "exported_register_variables": len(vars)}
 		return writeJSON(*f.stats, st)
@@ -857,6 +860,8 @@ func c20Replay(all []reg.Physical, repo, dir string, ts []string, emit func(kind
 		return resp
 	}
 	switch ts[0] {
+	case "ctxh", "accept-ctxfresh":
+		c20CtxReplay(ts, emit)
 	case "row":
 		if p := physRow(arg(1)); p != nil {
 			emit("row", line, fmt.Sprintf("%s:%d:%d:%d:%d:%d:%d:%s", c20Tok(p.Asm()), uint8(p.Kind()), uint16(p.PhysicalIndex()), p.Mask(), p.Size(), uint8(p.Info()), uint32(p.ID()), c20Bits(p)))
